@@ -15,7 +15,7 @@ import z3
 
 from .values import *  # noqa
 from .values import SV, VInt, VFloat, VStr, VBytes, VNone, NONE, VNative, NOTIMPL, VList, VTuple, VDict, VSet, \
-    VObj, VFunc, VModel, VBound, VSuper, VIter, VOpaque, VSymIter, VSymList, FP, RNE, BYTES, is_concrete
+    VObj, VFunc, VModel, VBound, VSuper, VIter, VOpaque, VSymIter, VSymList, VZSeq, VZSet, FP, RNE, BYTES, is_concrete
 
 METHODS = {}   # (class, name) -> fn(run, self, *args, **kw)
 CALLS = {}     # id(real callable) -> (obj, fn(run, *args, **kw))
@@ -750,8 +750,27 @@ def str_join(run, self, it):
     return _str_fold("join")(run, self, VList(list, items))
 
 
+def _zset_of(run, seq):
+    sort = seq.t.sort().basis()
+    return VZSet(lambda x, t=seq.t: z3.Contains(t, z3.Unit(x)), sort, seq.elem_cls, tag=("of", seq))
+
+
+def _zset_binop(kind):
+    def m(run, self, other):
+        if not isinstance(other, VZSet):
+            return NOTIMPL
+        f = {"and": lambda x: z3.And(self.member(x), other.member(x)),
+             "or": lambda x: z3.Or(self.member(x), other.member(x)),
+             "sub": lambda x: z3.And(self.member(x), z3.Not(other.member(x))),
+             "xor": lambda x: z3.Xor(self.member(x), other.member(x))}[kind]
+        return VZSet(f, self.sort, self.elem_cls, tag=(kind, self, other))
+    return m
+
+
 @method(set, "__new__")
 def set_new(run, clsv, it=None):
+    if isinstance(it, VZSeq):
+        return _zset_of(run, it)
     out = []
     if it is not None:
         for x in run.iterate(it):
@@ -763,6 +782,39 @@ def set_new(run, clsv, it=None):
 @method(set, "__init__")
 def set_init(run, self, *a):
     return NONE
+
+
+def _set_dispatch(name, kind, concrete):
+    def m(run, self, other):
+        if isinstance(self, VZSet):
+            return _zset_binop(kind)(run, self, other)
+        return concrete(run, self, other)
+    return m
+
+
+def _set_bool(run, self):
+    if isinstance(self, VZSet):
+        x = z3.Const(f"x!{id(self) % 100000}", self.sort)
+        return mk_bool(run, z3.Exists([x], self.member(x)))
+    return mk_bool(run, len(self.items) > 0)
+
+
+CARD = {}
+
+
+def _set_len(run, self):
+    if isinstance(self, VZSet):
+        # cardinality of the set of distinct elements: an uninterpreted measure of the membership predicate's source
+        if self.tag and self.tag[0] == "of":
+            seq = self.tag[1].t
+            f = z3.Function("distinct_count", seq.sort(), z3.IntSort())
+            return VInt(int, f(seq))
+        raise Unsupported("len of a derived symbolic set")
+    return VInt(int, len(self.items))
+
+
+METHODS[(set, "__bool__")] = _set_bool
+METHODS[(set, "__len__")] = _set_len
 
 
 def _set_eq(run, self, other):
@@ -777,11 +829,31 @@ METHODS[(set, "__eq__")] = _set_eq
 METHODS[(frozenset, "__eq__")] = _set_eq
 
 
-@method(set, "__and__")
-def set_and(run, self, other):
+def _cset_and(run, self, other):
     if not isinstance(other, VSet):
         return NOTIMPL
     return VSet(set, [a for a in self.items if any(a is b or run.key_eq(a, b) for b in other.items)])
+
+
+def _cset_sub(run, self, other):
+    if not isinstance(other, VSet):
+        return NOTIMPL
+    return VSet(set, [a for a in self.items if not any(a is b or run.key_eq(a, b) for b in other.items)])
+
+
+def _cset_or(run, self, other):
+    if not isinstance(other, VSet):
+        return NOTIMPL
+    out = list(self.items)
+    for b in other.items:
+        if not any(a is b or run.key_eq(a, b) for a in out):
+            out.append(b)
+    return VSet(set, out)
+
+
+METHODS[(set, "__and__")] = _set_dispatch("__and__", "and", _cset_and)
+METHODS[(set, "__sub__")] = _set_dispatch("__sub__", "sub", _cset_sub)
+METHODS[(set, "__or__")] = _set_dispatch("__or__", "or", _cset_or)
 
 
 @method(set, "__iter__")
@@ -1257,9 +1329,7 @@ def set_contains(run, self, item):
     return mk_bool(run, False)
 
 
-@method(set, "__len__")
-def set_len(run, self):
-    return VInt(int, len(self.items))
+
 
 
 # ====================================================================== builtin functions
